@@ -192,7 +192,7 @@ def rand_field(rng, d, family=None):
     """Elevation field spec {k, m, e | base}.  Families exercise ties, plateaus, nested bowls,
     distinct values, negative levels, subnormal / huge scales and chains of adjacent doubles."""
     n = grid_size(d)
-    fam = family or rng.choice(["tied", "tied", "tied3", "distinct", "bowl", "neg", "sub", "huge", "ulp", "flat"])
+    fam = family or rng.choice(["tied", "tied", "tied3", "distinct", "bowl", "neg", "sub", "huge", "ulp", "flat", "lowest"])
     if fam == "tied":
         lv = rng.randint(2, 5)
         return dict(k="int", m=[rng.randrange(lv) for _ in range(n)], e=0)
@@ -227,6 +227,15 @@ def rand_field(rng, d, family=None):
                             nxt.append(j)
                 frontier, lvl = nxt, lvl + 1
         return dict(k="int", m=m, e=0)
+    if fam == "lowest":
+        # the most negative finite value (a common no-data marker) among ordinary levels: no difference overflows
+        lo = "-1.7976931348623157e308"
+        return dict(k="lit", v=[lo if rng.random() < 0.35 else str(rng.randint(0, 3)) for _ in range(n)], m=[0] * n, e=0)
+    if fam == "extreme":
+        # the ends of the finite range: +-DBL_MAX next to ordinary and tiny values
+        vals = rng.choice([["1.7976931348623157e308", "0", "1", "-1"], ["-1.7976931348623157e308", "0", "5", "1.7976931348623157e308"],
+                           ["1.7976931348623157e308", "1.7976931348623155e308", "3"], ["-1.7976931348623157e308", "-1.7976931348623155e308", "0"]])
+        return dict(k="lit", v=[rng.choice(vals) for _ in range(n)], m=[0] * n, e=0)
     if fam == "cliff":
         # gentle relief next to a few very high nodes: slope ratios of 1e-4 .. 1e-7 (weights that
         # underflow to zero under a large slope exponent)
